@@ -39,6 +39,16 @@ CHECKS['C01'] = dict(engine=SYMX, technique=TXT + '; concrete boundary catalogue
 CHECKS['C02'] = dict(engine=SYMX, technique=TXT + '; concrete boundary catalogue for numeric/temporal kinds',
    text='JSON round trip: same harness family as C01 through jsondumper/jsonparser and the parser glue (dict, list-of-dicts forms symbolically; real JSON text in replay and in the catalogue runs), both Remove spellings via versions 2.0/3.0, six-decimal tolerance for floating payloads.',
    note='As C01; json.dumps/json.loads assumed an inverse pair on JSON-ready trees in the symbolic run.', ref='5 C02')
+CHECKS['C04'] = dict(engine=SYMX, technique=TXT.replace('real writer and reader', 'real ZINC writer, whose output is read by an independent reference reader (vf/spec/zinc_ref.py) in the same symbolic run'),
+   text='Same harness family as C01, but the text produced by the real ZINC writer is parsed by an independent recursive-descent reference reader written from the specification (no pyparsing, no re, no hszinc import) executing on the same symbolic text; z3 is asked for a payload for which the reference rejects the text or recovers a different grid; layout obligations (final newline, one cell per column, header) are part of the reference grammar.',
+   note='The reference is my recollection of the ZINC grammar (uncertain points listed in evidence and treated permissively); numeric/temporal kinds concrete; known finding bin-zinc-3.0 excluded by region.', ref='5 C04')
+MUT = 'bounded symbolic execution of the real ZINC reader and an independent reference reader on concrete well-formed documents with one symbolic code point substituted/inserted at each position (z3 decides every branch); replay'
+CHECKS['C09'] = dict(engine=SYMX, technique=MUT,
+   text='For each of 7 grid documents and 18 scalar texts covering every construct, and each position (every third in quick, every one in thorough; version texts always), one unconstrained symbolic code point replaces or is inserted before the character; hszinc.parse / parse_scalar and the reference reader run on the symbolic text. Every path is classified: grids, ZincParseException with line/col inside its text, another exception (violation), or a structurally broken text accepted (violation when the reference rejects for one of the structural reasons the property lists).',
+   note='Single-position mutations only; over-acceptance oracle limited to the structural families named by the property; C-level conversions reached with a symbolic character are executed after exhaustive forking over its feasible values (<=700) or, for larger domains, on sampled representatives (counted).', ref='5 C09')
+CHECKS['C03'] = dict(engine=SYMX, technique=MUT,
+   text='Same corpus and mutation scheme as C09; on every path where the (strict) reference reader accepts the text, hszinc must accept it too and denote the same grid (numbers, instants, texts compared via a neutral tree). The corpus covers blanks around commas, empty cells, digit separators, exponents, INF/-INF/NaN, all escapes, CRLF, trailing commas, t/T z/Z, zone names, final newline, multi-grid documents, both versions.',
+   note='Points where my recollection of the spec is uncertain are rejected by the reference as "uncertain" and thus outside the claim (listed in evidence).', ref='5 C03')
 NA_REASON = {}
 
 def main():
